@@ -7,6 +7,7 @@ package pagedoc
 
 import (
 	"fmt"
+	"sort"
 	"strings"
 
 	"verifharness/vlib"
@@ -127,6 +128,34 @@ type tgen struct {
 	decor  bool // containers of blocks carry bottom (and top) padding / borders of different widths
 	pagec  bool // the flow contains generated text that depends on the number of pages
 	edges  bool // inline boxes carry horizontal padding / borders / margins, often wider than a word
+	// soft hyphens (U+00AD, `hyphens: manual` is the initial value) inside words; drawn from a
+	// generator of its own so that the document is the one of the same job seed without them
+	shy *vlib.Rng
+}
+
+// SoftHyphen is the conditional hyphen: invisible unless the line is broken there, in which
+// case the hyphenate-character (initial value "-") is shown at the end of the line
+const SoftHyphen = '\u00ad'
+
+// withSoftHyphens inserts soft hyphens between the characters of a word (never before "-":
+// a hyphen of the text after a soft hyphen at a line end could not be told from an inserted one)
+func (g *tgen) withSoftHyphens(w string) string {
+	if g.shy == nil {
+		return w
+	}
+	rs := []rune(w)
+	if len(rs) < 2 || !g.shy.Chance(1, 2) {
+		return w
+	}
+	var out []rune
+	for i, c := range rs {
+		out = append(out, c)
+		if i+1 < len(rs) && rs[i+1] != '-' && g.shy.Chance(1, 3) {
+			out = append(out, SoftHyphen)
+			g.tags["soft-hyphen"] = true
+		}
+	}
+	return string(out)
 }
 
 // horizontal edges of an inline box: start and / or end padding, border, margin, from a few
@@ -208,7 +237,7 @@ func (g *tgen) word() string {
 		}
 	}
 	g.n += n
-	return sb.String()
+	return g.withSoftHyphens(sb.String())
 }
 
 func (g *tgen) space() string {
@@ -606,6 +635,98 @@ func (g *tgen) node(depth int) *TNode {
 	}
 }
 
+// a paragraph next to a stack of short floats of different widths, with an inline box taller
+// than the strut and a wide float in its text: the line box is laid out at the position found
+// for the strut height, turns out taller, collides with the next float of the stack and is
+// laid out again somewhere else (getNextLinebox loops), while the float inside the line does
+// not fit beside the text and waits for the end of the line
+func (g *tgen) floatStackNode() *TNode {
+	r := g.r
+	n := &TNode{Kind: NDiv}
+	plain := func(text string, inflow bool) *TPara {
+		p := &TPara{ID: len(g.d.Paras), Mode: g.d.BodyMode, InFlow: inflow, Tag: "div", Ctx: append([]string{}, g.ctx...)}
+		g.d.Paras = append(g.d.Paras, p)
+		p.Items = []*TItem{{Kind: TText, Mode: p.Mode, Text: text}}
+		return p
+	}
+	// mostly left floats (a line of a left-to-right block is laid out again only when its
+	// position changes) of increasing widths, each below the previous one
+	short := func() string {
+		w := []rune(g.word())
+		if len(w) > 2 {
+			w = w[:2]
+		}
+		return string(w)
+	}
+	side := vlib.Pick(r, []string{"left", "left", "left", "left", "right"})
+	m := r.Range(2, 4)
+	var ws []int
+	for i := 0; i < m; i++ {
+		ws = append(ws, r.Range(1, 6))
+	}
+	if r.Chance(4, 5) {
+		sort.Ints(ws)
+	}
+	g.ctx = append(g.ctx, "in-float")
+	for i := 0; i < m; i++ {
+		p := plain(short(), false)
+		sd := side
+		if r.Chance(1, 8) {
+			sd = vlib.Pick(r, []string{"left", "right"})
+		}
+		p.Style = fmt.Sprintf("float:%s;width:%d%%", sd, ws[i]*10)
+		if i > 0 && r.Chance(5, 6) {
+			p.Style += ";clear:" + sd
+		}
+		n.Kids = append(n.Kids, &TNode{Kind: NOof, Para: p})
+	}
+	g.ctx = g.ctx[:len(g.ctx)-1]
+	q := &TPara{ID: len(g.d.Paras), Mode: g.d.BodyMode, InFlow: true, Tag: "div", Ctx: append([]string{}, g.ctx...)}
+	g.d.Paras = append(g.d.Paras, q)
+	words := func(lo, hi int) string {
+		var sb strings.Builder
+		for i, m := 0, r.Range(lo, hi); i < m; i++ {
+			if i > 0 {
+				sb.WriteString(" ")
+			}
+			sb.WriteString(g.word())
+		}
+		return sb.String()
+	}
+	tall := &TItem{Kind: TSpan, Mode: -1, Kids: []*TItem{{Kind: TText, Mode: q.Mode, Text: short()}}}
+	if r.Chance(2, 3) {
+		tall.Edge = fmt.Sprintf("line-height:%dpx", g.d.FontSize*r.Range(2, 3))
+	} else {
+		tall.Edge = fmt.Sprintf("font-size:%dpx", g.d.FontSize*2)
+	}
+	fl := &TItem{Kind: TFloat}
+	g.ctx = append(g.ctx, "in-float")
+	fl.Para = plain(words(1, 3), false)
+	g.ctx = g.ctx[:len(g.ctx)-1]
+	fl.Para.Style = "float:" + vlib.Pick(r, []string{"left", "right"}) + ";width:" + vlib.Pick(r, []string{"50%", "70%", "90%", "auto", "60px"})
+	text := func(lo, hi int) *TItem { return &TItem{Kind: TText, Mode: q.Mode, Text: " " + words(lo, hi) + " "} }
+	// the tall box and the float mostly on the first line
+	if r.Chance(1, 4) {
+		q.Items = append(q.Items, &TItem{Kind: TText, Mode: q.Mode, Text: words(1, 2) + " "})
+	} else {
+		q.Items = append(q.Items, &TItem{Kind: TText, Mode: q.Mode, Text: short() + " "})
+	}
+	sep := &TItem{Kind: TText, Mode: q.Mode, Text: " " + short() + " "}
+	if r.Chance(1, 2) {
+		q.Items = append(q.Items, tall, sep, fl)
+	} else {
+		q.Items = append(q.Items, fl, sep, tall)
+	}
+	if r.Chance(2, 3) {
+		q.Items = append(q.Items, text(1, 8))
+	}
+	n.Kids = append(n.Kids, &TNode{Kind: NPara, Para: q})
+	g.tags["float"] = true
+	g.tags["oof-block"] = true
+	g.tags["float-stack"] = true
+	return n
+}
+
 func joinStyle(a, b string) string {
 	if a == "" {
 		return b
@@ -617,9 +738,16 @@ func joinStyle(a, b string) string {
 }
 
 // GenerateText draws a text document.
-func GenerateText(r *vlib.Rng) *TextDoc {
+func GenerateText(r *vlib.Rng) *TextDoc { return GenerateTextShy(r, nil) }
+
+// GenerateTextShy draws the same document as GenerateText(r), with soft hyphens inside its
+// words drawn from shy (nil: none).
+func GenerateTextShy(r *vlib.Rng, shy *vlib.Rng) *TextDoc {
 	d := &TextDoc{Tags: map[string]bool{}}
-	g := &tgen{r: r, d: d, tags: d.Tags, max: r.Range(30, 400)}
+	g := &tgen{r: r, d: d, tags: d.Tags, max: r.Range(30, 400), shy: shy}
+	if shy != nil {
+		g.tags["profile-soft-hyphens"] = true
+	}
 	d.FontSize = vlib.Pick(r, []int{20, 20, 10, 16})
 	d.PageW = vlib.Pick(r, []int{100, 140, 200, 300})
 	d.PageH = vlib.Pick(r, []int{60, 80, 100, 150, 220})
@@ -687,6 +815,13 @@ func GenerateText(r *vlib.Rng) *TextDoc {
 	}
 	for len(d.Nodes) == 0 || (g.n < g.max && r.Chance(cont-1, cont)) {
 		d.Nodes = append(d.Nodes, g.node(0))
+	}
+	// drawn last (everything above is unchanged for a job seed), appended at the end (the
+	// paragraph ids stay in document order)
+	if !g.pagec && r.Chance(1, 3) {
+		for i, m := 0, r.Range(2, 4); i < m; i++ {
+			d.Nodes = append(d.Nodes, g.floatStackNode())
+		}
 	}
 	return d
 }
@@ -1039,7 +1174,7 @@ func (p *TPara) OwnText() []rune {
 			switch it.Kind {
 			case TText:
 				for _, c := range it.Text {
-					if c != ' ' && c != '\t' && c != '\n' && c != '\r' {
+					if c != ' ' && c != '\t' && c != '\n' && c != '\r' && c != SoftHyphen {
 						out = append(out, c)
 					}
 				}
